@@ -1248,8 +1248,8 @@ def run(ctx):
         "NOT covered by the model: script texts, SCMs, fingerprints, workspace paths, path queries (oracle only)",
     ]
     ctx.trusted_base += [
-        "props/c04_dump.py: dumps the package tree through the public Package/Step getters of the repository under test; fork "
-        "server (bob imported once, every dump in a forked child that has parsed nothing yet)",
+        "props/c04_dump.py: dumps the package tree through the public Package/Step getters of the repository under test; "
+        "one fresh interpreter process per dump",
         "cache configurations are produced without editing the repository: deleting .bob-* files, PYTHONHASHSEED, "
         "bob.DEBUG['pkgck'], and two monkey patches in the dump process (PackageMatcher.matches -> False; "
         "Recipe.__corePackagesById replaced by a dict whose setdefault never reuses); if a patched name disappears the run "
